@@ -1620,6 +1620,14 @@ fn computation_translation(
             let CoMatch { arms } = compu;
             let arms: std::collections::HashMap<_, _> =
                 arms.into_iter().map(|CoMatcher { dtor, tail }| (dtor, tail)).collect();
+            // The coverage validator runs after elaboration, so a destructor without an arm
+            // is reported here instead of being looked up below.
+            if tycker.statics.codatas[&coda].iter().any(|(dtor, _)| !arms.contains_key(dtor)) {
+                tycker.err(
+                    TyckError::NonExhaustiveCopattern { expected: ty },
+                    std::panic::Location::caller(),
+                )?
+            }
             cs::CoMatch(coda, |dtor, _ty| {
                 let tail = arms.get(&dtor).cloned().unwrap();
                 cs::TermLift { tm: tail }
